@@ -8,6 +8,7 @@ import (
 	"time"
 
 	"bufio"
+	"encoding/binary"
 	"io"
 	"io/ioutil"
 )
@@ -25,6 +26,11 @@ type Connection struct {
 
 	// Used to buffer reads
 	readBuffer io.Reader
+
+	// Buffers the encrypted bytes read from the connection. It lives as long as the
+	// connection so that bytes which were read ahead (the next frame, or the first part of
+	// a frame) are not lost between calls.
+	encrypted *bufio.Reader
 }
 
 // NewConnection returns a hap connection.
@@ -63,29 +69,66 @@ func (con *Connection) EncryptedWrite(b []byte) (int, error) {
 // DecryptedRead reads and decrypts bytes from the connection.
 // The method returns the number of read bytes and an error when reading failed.
 func (con *Connection) DecryptedRead(b []byte) (int, error) {
-	if con.readBuffer == nil {
-		buffered := bufio.NewReader(con.connection)
-		decrypted, err := con.getDecrypter().Decrypt(buffered)
-		if err != nil {
-			if neterr, ok := err.(net.Error); ok && neterr.Timeout() {
-				// Ignore timeout error #77
-			} else {
-				log.Debug.Println("Decryption failed:", err)
-				err = con.connection.Close()
+	for {
+		if con.readBuffer == nil {
+			decrypted, err := con.decryptNextFrame()
+			if decrypted == nil {
+				// timeout, or decryption failed and the connection was closed
+				return 0, err
 			}
-			return 0, err
+
+			con.readBuffer = decrypted
 		}
 
-		con.readBuffer = decrypted
+		n, err := con.readBuffer.Read(b)
+
+		if n < len(b) || err == io.EOF {
+			con.readBuffer = nil
+		}
+
+		if n > 0 || len(b) == 0 {
+			return n, nil
+		}
+
+		if err != nil && err != io.EOF {
+			return n, err
+		}
+		// The buffered plaintext was used up by the previous call: continue with the next frame.
+	}
+}
+
+// decryptNextFrame waits until one complete frame ([2 byte length][data][16 byte auth tag])
+// has arrived and decrypts it. Nothing is consumed from the connection's buffer before the
+// frame is complete, so a read timeout in between does not lose bytes.
+func (con *Connection) decryptNextFrame() (io.Reader, error) {
+	if con.encrypted == nil {
+		// large enough for Peek to hold a frame with the biggest possible length field
+		con.encrypted = bufio.NewReaderSize(con.connection, 2+0xFFFF+16)
 	}
 
-	n, err := con.readBuffer.Read(b)
-
-	if n < len(b) || err == io.EOF {
-		con.readBuffer = nil
+	size := 0
+	header, err := con.encrypted.Peek(2)
+	if err == nil {
+		size = 2 + int(binary.LittleEndian.Uint16(header)) + 16
+		_, err = con.encrypted.Peek(size)
 	}
 
-	return n, err
+	if err == nil {
+		var decrypted io.Reader
+		decrypted, err = con.getDecrypter().Decrypt(io.LimitReader(con.encrypted, int64(size)))
+		if err == nil {
+			return decrypted, nil
+		}
+	}
+
+	if neterr, ok := err.(net.Error); ok && neterr.Timeout() {
+		// Ignore timeout error #77
+	} else {
+		log.Debug.Println("Decryption failed:", err)
+		err = con.connection.Close()
+	}
+
+	return nil, err
 }
 
 // Write writes bytes to the connection.
